@@ -6,6 +6,8 @@ Static clauses:
   S-FEEFLOW   the fee applied to the template in a round is the previous round's reported fee (or 0 in the first round); the
               fee reported by Compiler::compile is eval_size_fees of the very payload it returns; the body's fee field is the
               template's `fees` expression
+  S-FEEVALUE  in Param::apply_fees the value put under ExpectFees is the fee argument itself (casts and constructors only: no
+              arithmetic, no `max` / `min` / clamp / saturating / checked operation on the way)
   F-FIELDUSE  eval_size_fees consults min_fee_coefficient, min_fee_constant and the configured extra fees
   S-KIND      `fees` enters the template only through Param::apply_fees under the ExpectFees arm (shared with C06)
 Not decided (runtime quantities): fee = a*|payload| + b + margin as a number; that convergence is reached for every setting.
